@@ -152,6 +152,18 @@ def build(o, pose=IDENT, num="float", rep=None):
     if "scale" not in rep and VARY is not None and k in ("Line", "Plane", "HalfLine"):
         # the same point set with a rescaled (for Line / Plane also negated) direction or normal vector
         sc = VARY.choice((1, 1, 2, 3, -1, -2) if k != "HalfLine" else (1, 1, 2, 3))
+    if form is None and VARY is not None:
+        # ... and through another constructor form
+        if k == "Line":
+            form = VARY.choice(("PV", "PV", "PP", "VV"))
+        elif k == "HalfLine":
+            form = VARY.choice(("PV", "PV", "PP"))
+        elif k == "Segment":
+            form = VARY.choice(("PP", "PP", "PV"))
+            if VARY.random() < 0.3:
+                rep = dict(rep, swap=True)
+        elif k == "Plane":
+            form = VARY.choice((None, None, None, "GF", "3P", "PVV"))
     if k == "None":
         return None
     if k == "Point":
@@ -182,8 +194,19 @@ def build(o, pose=IDENT, num="float", rep=None):
     if k == "Plane":
         p = mk_point(o["p"], pose, num)
         n = mk_vector(o["n"], pose, num, sc)
-        if form == "GF" or (form is None and VARY is not None and VARY.random() < 0.15):
+        if form == "GF":
             return Plane(n[0], n[1], n[2], n * p.pv())          # the same plane through the general-form constructor
+        if form in ("3P", "PVV"):
+            # two independent in-plane lattice vectors (cross products of the lattice normal with coordinate axes)
+            nn = [int(x) for x in pose.vec(o["n"])] if all(x.denominator == 1 for x in pose.vec(o["n"])) else None
+            if nn is not None:
+                ax = (1, 0, 0) if (nn[1], nn[2]) != (0, 0) else (0, 1, 0)
+                v = cross(nn, ax)
+                w = cross(nn, v)
+                V1, V2 = Vector(*convs([Fr(c) for c in v], num)), Vector(*convs([Fr(c) for c in w], num))
+                if form == "3P":
+                    return Plane(p, Point(p.pv() + V1), Point(p.pv() + V2))
+                return Plane(p, V1, V2)
         return Plane(p, n)
     if k == "Polygon":
         pts = [mk_point(P, pose, num) for P in o["cyc"]]
